@@ -1,7 +1,7 @@
 #!/usr/bin/env python3
 """Self-test of the checks (DESIGN 3.8): behaviour-preserving edits must pass (exit 0), seeded property-breaking
 changes must not pass (exit 1, or exit 2 where the change leaves the verifiable subset).
-usage: tools/selftest.py [harmless|seeded|all]     -- works on scratch copies of /repo's committed tree, never on /repo
+usage: tools/selftest.py [harmless|seeded|all] [name-substring]     -- works on scratch copies of /repo's committed tree, never on /repo
 """
 import glob
 import json
@@ -31,9 +31,12 @@ def run(prop, tree):
 
 def main():
     what = sys.argv[1] if len(sys.argv) > 1 else 'all'
+    only = sys.argv[2] if len(sys.argv) > 2 else ''
     bad = 0
     if what in ('harmless', 'all'):
         for f in sorted(glob.glob(os.path.join(ROOT, 'selftest', 'harmless', '*.diff'))):
+            if only not in os.path.basename(f):
+                continue
             prop = os.path.basename(f).split('_')[1].split('.')[0]
             d = scratch_tree()
             try:
@@ -46,6 +49,8 @@ def main():
                 shutil.rmtree(d, ignore_errors=True)
     if what in ('seeded', 'all'):
         for dd in sorted(glob.glob(os.path.join(ROOT, 'seeded', '*'))):
+            if only not in os.path.basename(dd):
+                continue
             meta = json.load(open(os.path.join(dd, 'meta.json')))
             prop = meta['property']
             d = scratch_tree()
@@ -57,7 +62,13 @@ def main():
                 rc, last = run(prop, d)
                 ok = rc in (1, 2)
                 bad += 0 if ok else 1
-                print('%s seeded %s -> exit %d %s' % ('ok  ' if ok else 'MISS', os.path.basename(dd), rc, last[:120]))
+                wit = ''
+                if rc == 1 and 'replay=' in last:
+                    try:
+                        wit = ' witness: %s' % json.load(open(last.split('replay=')[1].split()[0])).get('input')
+                    except Exception:
+                        pass
+                print('%s seeded %s -> exit %d %s%s' % ('ok  ' if ok else 'MISS', os.path.basename(dd), rc, last[:120], wit))
             finally:
                 shutil.rmtree(d, ignore_errors=True)
     sys.exit(1 if bad else 0)
